@@ -59,7 +59,7 @@ fn scenarios_for(prop: &str, tier: Tier) -> Vec<Box<dyn Scenario>> {
             v.push(Box::new(ListenerNewScenario { filters: vec![0, 1, 7, 9], depth: tier.pick(6, 8) }));
             v.push(Box::new(ListenerNewScenario { filters: vec![3, 4, 10], depth: tier.pick(6, 8) }));
             if tier == Tier::Thorough {
-                v.push(Box::new(ListenerNewScenario { filters: vec![2, 5, 6, 12], depth: 8 }));
+                v.push(Box::new(ListenerNewScenario { filters: vec![2, 5, 6, 11], depth: 8 }));
             }
             v
         }
